@@ -31,6 +31,7 @@ import sys
 import tempfile
 import time
 import traceback
+import zlib
 
 import numpy as np
 
@@ -163,7 +164,13 @@ class Engine:
                 return
             if i < len(steps) - 1:
                 before = self.sweep(run.obj, self.pop)
-        got = self.sweep(run.obj, self.qs)
+        #  the final sweep runs in a history-dependent pseudo-random order: state shared between
+        #  queries outside the cache (e.g. stored effective resistances) must not be refreshed
+        #  by a fixed "lucky" predecessor
+        order = np.random.RandomState(zlib.crc32(">".join(hist).encode()) ^ (spec.seed * 2654435761 % 2 ** 32)).permutation(len(self.qs))
+        got = [None] * len(self.qs)
+        for j in order:
+            got[j] = S.call(run.obj, self.qs[j])
         pop_idx = {q.label: j for j, q in enumerate(self.qs)}
         nontrivial = (not steps) or any(
             S.deep_diff(b, got[pop_idx[q.label]]) for q, b in zip(self.pop, before))
